@@ -1,18 +1,22 @@
 import Driver.Util
-import GqlgenVerif.Model.Apq
+import GqlgenVerif.Model.ApqOp
 /-!
 Line-protocol driver for C15 (stateful: `tab` lines fill the text table the later lines refer to).
 
-  tab <id> <hex text> <sha> <valid 0/1>          → ok
+  tab <id> <hex text> <sha> <valid 0/1> [<ops>]  → ok     ops = names of the text's operations in source order,
+                                                          comma-separated, `_` = anonymous (default: one anonymous)
   run <cache> <req> <req> …                      → <obs> <obs> …\t<final contents>
   chk <cache> <reqs>\t<obs …>\t<contents>        → ok | violates:<what> | unparsable:<token>
 
 The model is instantiated with Text := Nat (the text id; the empty query is `none`), Hash := String,
 H := the table id ↦ real SHA-256 hex digest computed by the harness. Token formats: see
-go/harness/c15/main.go.
+go/harness/c15/main.go. The request's `operationName` is the part of the shape behind `^`; Name := String
+(`""` anonymous), Body := Nat (index of the operation in the text's own list); the document cache of the model
+is a map (`+q`), an LRU (`+q<N>`) or absent. `x:<t>.<k>` = operation k of text t was executed (`.k` is omitted
+for texts with at most one operation).
 -/
 namespace Driver.C15
-open GqlgenVerif.Apq
+open GqlgenVerif.Apq GqlgenVerif.ApqOp
 
 def dropS (s : String) (n : Nat) : String := String.ofList (s.toList.drop n)
 
@@ -20,6 +24,7 @@ structure Entry where
   id : Nat
   sha : String
   valid : Bool
+  ops : List String := [""]
 
 abbrev Tab := List Entry
 
@@ -32,6 +37,21 @@ def validOf (tb : Tab) (t : Nat) : Bool :=
   match tb.find? (·.id == t) with
   | some e => e.valid
   | none => false
+
+def opsOf (tb : Tab) (t : Nat) : List String :=
+  match tb.find? (·.id == t) with
+  | some e => e.ops
+  | none => []
+
+def enumFrom : Nat → List String → List (String × Nat)
+  | _, [] => []
+  | i, n :: r => (n, i) :: enumFrom (i + 1) r
+
+/-- gqlparser on a text of the table: rejected, or its operations (name, index) -/
+def parseOf (tb : Tab) (t : Nat) : Option (Doc String Nat) :=
+  if validOf tb t then some (enumFrom 0 (opsOf tb t)) else none
+
+def selOf (tb : Tab) : Nat → String → Option (String × Nat) := selectOf (parseOf tb) ""
 
 def alias (tb : Tab) (h : String) : String :=
   match tb.find? (·.sha == h) with
@@ -53,23 +73,30 @@ def parseText (s : String) : Option (Option Nat) :=
 def parseInt (s : String) : Option Int :=
   if s.startsWith "-" then (dropS s 1).toNat?.map (fun n => -(n : Int)) else s.toNat?.map (fun n => (n : Int))
 
-def parseReq (tb : Tab) (tok : String) : Option (Req Nat String) :=
+/-- the `operationName` of a request token: the part of the shape between `^` and the first `@` / `~` -/
+def opNameOf (shape : String) : String :=
+  match shape.splitOn "^" with
+  | [_, r] => ((r.splitOn "@").headD "").splitOn "~" |>.headD ""
+  | _ => ""
+
+def parseReq (tb : Tab) (tok : String) : Option (OReq Nat String String) :=
   match tok.splitOn "/" with
-  | [q, e, _] =>
+  | [q, e, shape] =>
     match parseText q with
     | none => none
     | some q =>
-      if e == "a" then some ⟨q, .absent⟩
-      else if e == "m" then some ⟨q, .malformed⟩
+      let n := opNameOf shape
+      if e == "a" then some ⟨⟨q, .absent⟩, n⟩
+      else if e == "m" then some ⟨⟨q, .malformed⟩, n⟩
       else match e.splitOn "," with
         | [v, h] =>
           match parseInt v, parseHash tb h with
-          | some v, some h => some ⟨q, .decoded v h⟩
+          | some v, some h => some ⟨⟨q, .decoded v h⟩, n⟩
           | _, _ => none
         | _ => none
   | _ => none
 
-def parseReqs (tb : Tab) (s : String) : Option (List (Req Nat String)) :=
+def parseReqs (tb : Tab) (s : String) : Option (List (OReq Nat String String)) :=
   if s == "-" then some [] else (s.splitOn " ").mapM (parseReq tb)
 
 def showText : Option Nat → String
@@ -91,24 +118,49 @@ def showOp (tb : Tab) : Op Nat String → String
 def showOps (tb : Tab) (ops : List (Op Nat String)) : String :=
   if ops.isEmpty then "-" else ",".intercalate (ops.map (showOp tb))
 
-def showRes {σ : Type} (tb : Tab) (x : StepRes σ Nat String) : String :=
-  showOut x.out ++ "|x:" ++ showText (executed (validOf tb) x.out) ++ "|" ++ showOps tb x.ops
+def showExec (tb : Tab) : Option (Nat × (String × Nat)) → String
+  | none => "-"
+  | some (t, (_, k)) => if (opsOf tb t).length > 1 then toString t ++ "." ++ toString k else toString t
+
+def showRes {σ δ : Type} (tb : Tab) (x : OStepRes σ δ Nat String String Nat) : String :=
+  showOut x.apq.out ++ "|x:" ++ showExec tb x.exec ++ "|" ++ showOps tb x.apq.ops
 
 /-- candidate keys the harness probes at the end: table hashes in order, then the literal hashes of the
 history in order of first appearance -/
-def candidates (tb : Tab) (rs : List (Req Nat String)) : List String :=
-  let lits := rs.filterMap (fun r => match r.ext with | .decoded _ h => some h | _ => none)
+def candidates (tb : Tab) (rs : List (OReq Nat String String)) : List String :=
+  let lits := rs.filterMap (fun r => match r.req.ext with | .decoded _ h => some h | _ => none)
   (tb.map (·.sha) ++ lits).eraseDups
 
 def showContents (tb : Tab) (view : String → Option Nat) (keys : List String) : String :=
   let l := keys.filterMap (fun k => (view k).map (fun t => alias tb k ++ ">" ++ toString t))
   if l.isEmpty then "-" else " ".intercalate l
 
-def trace {σ : Type} (tb : Tab) (C : CacheImpl σ Nat String) (view : σ → String → Option Nat) (s0 : σ)
-    (rs : List (Req Nat String)) : String :=
-  let (s, xs) := runAll (hashOf tb) C s0 rs
+def lastState {σ δ : Type} (s0 : σ) : List (OStepRes σ δ Nat String String Nat) → σ
+  | [] => s0
+  | [x] => x.apq.state
+  | _ :: r => lastState s0 r
+
+def traceQ {σ δ : Type} (tb : Tab) (C : CacheImpl σ Nat String) (view : σ → String → Option Nat) (s0 : σ)
+    (Q : CacheImpl δ (Doc String Nat) Nat) (q0 : δ) (rs : List (OReq Nat String String)) : String :=
+  let xs := runAllOp (hashOf tb) C (parseOf tb) "" Q s0 q0 rs
   let obs := if xs.isEmpty then "-" else " ".intercalate (xs.map (showRes tb))
-  obs ++ "\t" ++ showContents tb (view s) (candidates tb rs)
+  obs ++ "\t" ++ showContents tb (view (lastState s0 xs)) (candidates tb rs)
+
+/-- the parsed-document cache of a cache kind: `+q` a map, `+q<N>` an LRU of N documents, else none -/
+def qKind (kind : String) : String :=
+  match ((kind.splitOn "@").headD "").splitOn "+" with
+  | [_, q] => q
+  | _ => ""
+
+def trace {σ : Type} (tb : Tab) (kind0 : String) (C : CacheImpl σ Nat String) (view : σ → String → Option Nat) (s0 : σ)
+    (rs : List (OReq Nat String String)) : String :=
+  let q := qKind kind0
+  if q == "q" then traceQ tb C view s0 (mapCache : CacheImpl (MapState (Doc String Nat) Nat) (Doc String Nat) Nat) mapEmpty rs
+  else if q.startsWith "q" then
+    match (dropS q 1).toNat? with
+    | some n => traceQ tb C view s0 (lruCache : CacheImpl (Lru (Doc String Nat) Nat) (Doc String Nat) Nat) (lruEmpty n) rs
+    | none => "bad-cache"
+  else traceQ tb C view s0 (noCache : CacheImpl Unit (Doc String Nat) Nat) () rs
 
 /-- cache kind grammar `<map|no|lruN>[+q][@http]`: `+q` (a parsed-document cache is configured) and `@http`
 (the history is carried over HTTP) do not exist in the model — the cache behind APQ is the prefix -/
@@ -122,13 +174,13 @@ def isFault (tok : String) : Bool := tok.startsWith "!/"
 
 def faultObs : String := "bad|x:-|-"
 
-def runCache (tb : Tab) (kind0 : String) (rs : List (Req Nat String)) : String :=
+def runCache (tb : Tab) (kind0 : String) (rs : List (OReq Nat String String)) : String :=
   let kind := baseKind kind0
-  if kind == "map" then trace tb mapCache mapView mapEmpty rs
-  else if kind == "no" then trace tb noCache noView () rs
+  if kind == "map" then trace tb kind0 mapCache mapView mapEmpty rs
+  else if kind == "no" then trace tb kind0 noCache noView () rs
   else if kind.startsWith "lru" then
     match (dropS kind 3).toNat? with
-    | some n => trace tb lruCache lruView (lruEmpty n) rs
+    | some n => trace tb kind0 lruCache lruView (lruEmpty n) rs
     | none => "bad-cache"
   else "bad-cache"
 
@@ -177,10 +229,21 @@ def parseOp (tb : Tab) (s : String) : Option (Op Nat String) :=
       else none
   | _ => none
 
-def parseObs (tb : Tab) (tok : String) : Except String (Obs Nat String) :=
+/-- `-` | `<t>` (operation 0) | `<t>.<k>` | `?…` (something outside the table) -/
+def parseExec (tb : Tab) (s : String) : Option (Option (Nat × (String × Nat))) :=
+  if s == "-" then some none
+  else match s.splitOn "." with
+    | [t] => (parseText t).bind (fun t => t.map (fun t => some (t, ((opsOf tb t).getD 0 "?", 0))))
+    | [t, k] =>
+      match t.toNat?, k.toNat? with
+      | some t, some k => some (some (t, ((opsOf tb t).getD k "?", k)))
+      | _, _ => none
+    | _ => none
+
+def parseObs (tb : Tab) (tok : String) : Except String (OObs Nat String String Nat) :=
   match tok.splitOn "|" with
   | [c, x, ops] =>
-    match parseOut c, (if x.startsWith "x:" then parseText (dropS x 2) else none),
+    match parseOut c, (if x.startsWith "x:" then parseExec tb (dropS x 2) else none),
           (if ops == "-" then some [] else (ops.splitOn ",").mapM (parseOp tb)) with
     | some o, some e, some ops => .ok ⟨o, e, ops⟩
     | _, _, _ => .error tok
@@ -197,9 +260,11 @@ def parseContents (tb : Tab) (s : String) : Except String (List (String × Nat))
     | _ => .error p)
 
 /-- first failing position of the trace spec, for the replay -/
-def firstBad (H : Nat → String) : Nat → List (Nat × String) → List (Req Nat String) → List (Obs Nat String) → Option Nat
+def firstBad (sel : Nat → String → Option (String × Nat)) (H : Nat → String) : Nat → List (Nat × String) →
+    List (OReq Nat String String) → List (OObs Nat String String Nat) → Option Nat
   | _, _, [], [] => none
-  | i, sent, r :: rs, o :: os => if specReq H sent r o then firstBad H (i + 1) (sent ++ sentOf r) rs os else some i
+  | i, sent, r :: rs, o :: os =>
+    if specReq H sent r.req o.base && execReq sel r o then firstBad sel H (i + 1) (sent ++ sentOf r.req) rs os else some i
   | i, _, _, _ => some i
 
 def chk (tb : Tab) (rest : String) : String :=
@@ -223,8 +288,8 @@ def chk (tb : Tab) (rest : String) : String :=
           match badFault with
           | some i => "violates:request-" ++ toString i
           | none =>
-          if specOk H rs os cs then "ok"
-          else match firstBad H 0 [] rs os with
+          if specOkOp (selOf tb) H rs os cs then "ok"
+          else match firstBad (selOf tb) H 0 [] rs os with
             | some i => "violates:request-" ++ toString (ix.getD i i)
             | none => "violates:final-contents"
     | [] => "unparsable:head"
@@ -235,7 +300,13 @@ def stepLine (tb : Tab) (line : String) : Tab × String :=
     match line.splitOn " " with
     | [_, id, _hex, sha, v] =>
       match id.toNat? with
-      | some id => (tb ++ [⟨id, sha, v == "1"⟩], "ok")
+      | some id => (tb ++ [⟨id, sha, v == "1", [""]⟩], "ok")
+      | none => (tb, "bad-tab")
+    | [_, id, _hex, sha, v, ops] =>
+      match id.toNat? with
+      | some id =>
+        let names := if ops == "-" then [] else (ops.splitOn ",").map (fun n => if n == "_" then "" else n)
+        (tb ++ [⟨id, sha, v == "1", names⟩], "ok")
       | none => (tb, "bad-tab")
     | _ => (tb, "bad-tab")
   else if line.startsWith "run " then
